@@ -633,3 +633,146 @@ func c01R35(ic *IC, r *Report) {
 	r.Check(len(bad) == 0, "R01.35", "destType/left-hand-side-type-only-when-built-there", ic.pos(dt.Decl.Pos()), "the type of the left-hand side is returned under a comparison of frame locations",
 		"destType gives the generator of a struct literal the type of the statement's first destination ("+strings.Join(bad, "; ")+") without testing that the literal is built there (same frame location): when the assign operation is not skipped - a multiple assignment, a field, element or pointee destination - the literal wraps itself for an interface destination and stores the wrapper in its own struct-typed slot: var i1, i2 I = X{1}, X{2} panics in reflect.Set")
 }
+
+func init() {
+	ruleText["R01.36"] = "no successor link is set from a node variable that may be nil: in the wiring code of the compile pass (cfg and its plain helpers) a local *node declared without a value and assigned only in some cases of a switch without default (or some branches of an if without else) is not stored into tnext, fnext or start without a nil test on the way - a nil successor ends the enclosing function silently"
+	ruleText["R02.20"] = "the result of an operation is computed in a location of its own unless its direct parent consumes it there: in the binary-expression case of cfg, and in the helpers it asks for a destination, the frame location given to the node comes from sc.add, from the position of a return operand, or from a child of the node's own parent - never from a node two levels up (the destination of an assignment whose source merely contains the operation), which the other operand may still have to read"
+}
+
+// c01R36: round-7 seed. The four if cases of cfg were merged into a helper wireIf in which the
+// successor of the init statement stayed nil for a constant false condition without else:
+// if x := f(); false { ... } ended the enclosing function after the init statement.
+func c01R36(ic *IC, r *Report) {
+	info := ic.Info
+	linkFld := map[*types.Var]bool{}
+	for _, fn := range []string{"tnext", "fnext", "start"} {
+		if v := ic.field("node", fn); v != nil {
+			linkFld[v] = true
+		}
+	}
+	n := 0
+	nVars := 0
+	for _, name := range sortedKeys(ic.F) {
+		fi := ic.F[name]
+		if fi.Decl.Body == nil {
+			continue
+		}
+		// only code that wires: functions assigning a link field
+		wires := false
+		ast.Inspect(fi.Decl.Body, func(q ast.Node) bool {
+			if as, ok := q.(*ast.AssignStmt); ok {
+				for _, l := range as.Lhs {
+					if v := selField(info, l); v != nil && linkFld[v] {
+						wires = true
+					}
+				}
+			}
+			return true
+		})
+		if !wires {
+			continue
+		}
+		// candidates: var x *node (no value)
+		ast.Inspect(fi.Decl.Body, func(q ast.Node) bool {
+			ds, ok := q.(*ast.DeclStmt)
+			if !ok {
+				return true
+			}
+			gd, ok := ds.Decl.(*ast.GenDecl)
+			if !ok || gd.Tok != token.VAR {
+				return true
+			}
+			for _, sp := range gd.Specs {
+				vs := sp.(*ast.ValueSpec)
+				if len(vs.Values) != 0 {
+					continue
+				}
+				for _, nm := range vs.Names {
+					obj := info.ObjectOf(nm)
+					if obj == nil || !isNamedPtr(obj.Type(), "node") {
+						continue
+					}
+					nVars++
+					// is it assigned on every path? Approximation on the shape that matters: all its
+					// assignments sit in case clauses of switches without default / ifs without else
+					mayBeNil := true
+					ast.Inspect(fi.Decl.Body, func(z ast.Node) bool {
+						as, ok := z.(*ast.AssignStmt)
+						if !ok {
+							return true
+						}
+						for _, l := range as.Lhs {
+							if id := identOf(l); id != nil && info.ObjectOf(id) == obj {
+								path := enclosingPath(fi.Decl.Body, as)
+								conditional := false
+								for k := len(path) - 1; k >= 0; k-- {
+									switch y := path[k].(type) {
+									case *ast.SwitchStmt:
+										hasDefault := false
+										for _, st := range y.Body.List {
+											if len(st.(*ast.CaseClause).List) == 0 {
+												hasDefault = true
+											}
+										}
+										if !hasDefault {
+											conditional = true
+										}
+									case *ast.IfStmt:
+										if y.Else == nil {
+											conditional = true
+										}
+									}
+									if path[k] == ast.Node(ds) {
+										break
+									}
+								}
+								if !conditional {
+									mayBeNil = false
+								}
+							}
+						}
+						return true
+					})
+					if !mayBeNil {
+						continue
+					}
+					// stores of the variable into a link
+					ast.Inspect(fi.Decl.Body, func(z ast.Node) bool {
+						as, ok := z.(*ast.AssignStmt)
+						if !ok || len(as.Lhs) != len(as.Rhs) {
+							return true
+						}
+						for i, l := range as.Lhs {
+							v := selField(info, l)
+							if v == nil || !linkFld[v] {
+								continue
+							}
+							if id := identOf(as.Rhs[i]); id == nil || info.ObjectOf(id) != obj {
+								continue
+							}
+							n++
+							tested := false
+							for _, g := range pathGuards(fi.Decl.Body, as) {
+								ast.Inspect(g.cond, func(w ast.Node) bool {
+									if be, ok := w.(*ast.BinaryExpr); ok && (be.Op == token.NEQ || be.Op == token.EQL) {
+										if a, b := identOf(be.X), identOf(be.Y); a != nil && b != nil && ((info.ObjectOf(a) == obj && b.Name == "nil") || (info.ObjectOf(b) == obj && a.Name == "nil")) {
+											tested = true
+										}
+									}
+									return true
+								})
+							}
+							r.Check(tested, "R01.36", fmt.Sprintf("%s/%s-stored-into-%s/never-nil", name, nm.Name, v.Name()), ic.pos(as.Pos()), "the successor stored is tested against nil on the way",
+								name+" stores "+nm.Name+" into "+types.ExprString(l)+" although "+nm.Name+" (declared without a value at "+ic.pos(ds.Pos())+") is only assigned in some cases of a switch without default: when none applies the link is nil and the enclosing function ends there - if x := f(); false { ... } (constant false condition, no else) returns from the function after the init statement")
+						}
+						return true
+					})
+				}
+			}
+			return true
+		})
+	}
+	if n == 0 {
+		r.Pass("R01.36", "package/no-possibly-nil-successor-stored", "", fmt.Sprintf("%d node variables declared without a value in the wiring code, none stored into a successor link while possibly nil", nVars))
+	}
+}
